@@ -163,6 +163,12 @@ def check_rc4(c):
         if got != exp:
             raise Violation("rc4:%s!=spec-stream" % op, {"op": i, "out": exp}, {"op": i, "out": got})
         pos += len(data)
+    # further objects for the same key (each one a fresh stream from position 0)
+    for k in range(c.get("objects", 0)):
+        o = guard(RC4, key)
+        got = bytes(guard(o.keystream, min(total, 40) + 1).ival)
+        if got != R.rc4_keystream(key, min(total, 40) + 1):
+            raise Violation("rc4:later-object-for-same-key!=spec-stream", {"object": k + 2}, {"object": k + 2, "ks": got})
     # one-shot over the concatenation with a fresh object gives the same bytes
     if c.get("oneshot"):
         whole = b"".join(d for _, d in c["ops"])
@@ -179,8 +185,8 @@ def rc4_strategy(tier):
     kl = gen.pick((3, st.sampled_from([1, 2, 5, 16, 255, 256])), (2, gen.uint(1, 256)), (1, st.sampled_from([0, 257, 300])))
     piece = gen.blob_of(gen.pick((1, st.just(0)), (3, gen.uint(1, 20)), (1, gen.uint(21, 300))))
     op = st.tuples(st.sampled_from(["enc", "enc", "dec", "ks"]), piece)
-    return st.builds(lambda k, ops, o: {"key": k, "ops": tuple(ops), "oneshot": o}, gen.blob_of(kl),
-                     st.lists(op, min_size=1, max_size=maxops), st.booleans())
+    return st.builds(lambda k, ops, o, n: {"key": k, "ops": tuple(ops), "oneshot": o, "objects": n}, gen.blob_of(kl),
+                     st.lists(op, min_size=1, max_size=maxops), st.booleans(), gen.uint(0, 3))
 
 
 FACETS = [
